@@ -164,6 +164,7 @@ class IntegratorKrylov(Integrator):
 
     def set_state(self, t, state0):
         self._t_0 = t
+        self._is_set = True
         krylov_tridiag, krylov_basis = self._lanczos_algorithm(state0)
         self._krylov_state = self._compute_krylov_set(krylov_tridiag, krylov_basis)
 
